@@ -246,6 +246,8 @@ pub fn run(tier: &str) -> Result<Report, String> {
         let names = [
             "_p1", "__", "_", "_1", "p_", "a1", "1a", "9", "x_y_z", "EXa", "AXEL", "EFG", "Va", "V1", "3a", "33", "A", "E", "EW1", "AWx", "inx", "in1", "true1", "False_", "T", "F", "t", "tt", "é", "_é",
             "細胞", "𝔸b", "a٣", "Ab_9_", "x", "xx", "var0",
+            // words that other logics' concrete syntaxes use as operators (ordinary identifiers here)
+            "not", "and", "or", "xor", "imp", "iff", "exists", "forall", "bind", "jump", "in", "until", "U", "W", "X", "G",
         ];
         let mut n_id = 0u64;
         let a = || T::Prop("a".into());
@@ -323,6 +325,6 @@ pub fn run(tier: &str) -> Result<Report, String> {
     rep.violations.extend(deep_bad);
     rep.sample(json!({"constructed": "(3{xx} in %3x%: (EXa AW (~{x})))", "round_trip": "parse_extended_formula(to_string(t)) == t, stored text/height checked at each of its 5 nodes"}));
     rep.sample(json!({"parsed": "V{x} in %d%: @{x}: a => %p%"}));
-    rep.rule = format!("every tree with 1..{s_max} nodes assembled with the public mk_* constructors over {} (jump with a domain excluded), every tree parse_extended_formula returns for token sequences of length <= {tlen} over {toks:?}, every tree produced by preprocessing closed formulae, every tree of an identifier-shape family (37 names - leading / only underscores, digits first, operator and constant look-alikes, non-ASCII - in proposition, variable, wild-card and domain position), every tree HctlTreeNode::new_random_boolean returns on a grid of (levels 1..5/7) x (seeds 0..199/999), and 46 chains of depth 50/200: stored text and height at every node vs an independent renderer, and print->parse round trip (extended parser; plain parser too on plain trees); distinct_nontrivial = number of distinct constructed trees with at least one operator", alphabet().describe());
+    rep.rule = format!("every tree with 1..{s_max} nodes assembled with the public mk_* constructors over {} (jump with a domain excluded), every tree parse_extended_formula returns for token sequences of length <= {tlen} over {toks:?}, every tree produced by preprocessing closed formulae, every tree of an identifier-shape family (53 names - words such as not / and / or / xor / in / exists, leading / only underscores, digits first, operator and constant look-alikes, non-ASCII - in proposition, variable, wild-card and domain position), every tree HctlTreeNode::new_random_boolean returns on a grid of (levels 1..5/7) x (seeds 0..199/999), and 46 chains of depth 50/200: stored text and height at every node vs an independent renderer, and print->parse round trip (extended parser; plain parser too on plain trees); distinct_nontrivial = number of distinct constructed trees with at least one operator", alphabet().describe());
     Ok(rep)
 }
